@@ -56,8 +56,8 @@ let rec op_of (s : string) : M.io_op =
   | 'b' -> M.OByRef (op_of (tail 1))
   | 'r' -> M.ORead (n_of_string (tail 1))
   | 'x' -> M.OReadExact (n_of_string (tail 1))
-  | 'w' -> M.OWrite (tgt s.[1], bytes_of_hex (tail 3))
-  | 'a' -> M.OWriteAll (tgt s.[1], bytes_of_hex (tail 3))
+  | 'w' when S.length s >= 3 && s.[2] = ':' -> M.OWrite (tgt s.[1], bytes_of_hex (tail 3))
+  | 'a' when S.length s >= 3 && s.[2] = ':' -> M.OWriteAll (tgt s.[1], bytes_of_hex (tail 3))
   | _ -> failwith "io op"
 
 let () =
@@ -65,7 +65,7 @@ let () =
   reg_typed "decr" (fun t args -> match args with
     | [strict; shim; entry; h; sch] ->
         let st = { M.data = bytes_of_hex h; M.sched = rsched_of sch } in
-        let strict = (strict = "1") and shim = (shim = "1") in
+        let strict = (bool_of strict) and shim = (bool_of shim) in
         (match entry with
          | "deserialize_reader" ->
              (match M.decr shim strict (t ()) st with
@@ -79,7 +79,7 @@ let () =
   (* encw SHIM VALUE WRITER  ->  ok|err K M  SINKHEX [room=N] *)
   reg_typed "encw" (fun t args -> match args with
     | [shim; v; w] ->
-        let shim = (shim = "1") in
+        let shim = (bool_of shim) in
         let v = val_of (parse_sexp v) in
         let fin r sink extra = (match r with
           | M.Ok (st, e) -> werr_s e ^ " " ^ hex_of_bytes (sink st) ^ extra st
@@ -101,11 +101,11 @@ let () =
      lengths (comma separated; "-" for none): IoRechunk.to_writer_cs *)
   reg_typed "encwc" (fun t args -> match args with
     | [shim; v; w; lens] ->
-        let shim = (shim = "1") in
+        let shim = (bool_of shim) in
         let v = val_of (parse_sexp v) in
         let (chunks0, e0) = M.ser (t ()) v in
         let stream = List.concat chunks0 in
-        let lens = if lens = "-" || lens = "" then [] else List.map int_of_string (S.split_on_char ',' lens) in
+        let lens = if lens = "-" || lens = "" then [] else List.map small_nat_of_string (S.split_on_char ',' lens) in
         let rec take n l acc = if n = 0 then (List.rev acc, l) else (match l with
           | x :: r -> take (n - 1) r (x :: acc)
           | [] -> raise Exit) in
